@@ -392,6 +392,9 @@ def be_int(v, off, k):
 
 def b_eq_goal(E, a, b, tag='k'):
     """z3 formula equivalent (for *proving*) to a == b : lengths equal and equal at a fresh skolem index."""
+    if not isinstance(a, (bytes, bytearray, SBytes, SByteArray)) or not isinstance(b, (bytes, bytearray, SBytes, SByteArray)):
+        # a value that is no byte string at all (None, an object) is not equal to one: the goal is simply false
+        return z3.BoolVal(False)
     a, b = lift_bytes(a), lift_bytes(b)
     k = z3.Int(E.path.fresh_name('sk.' + tag))
     la, lb = a.len_term(), b.len_term()
